@@ -222,6 +222,16 @@ func runCase(e *env, sh *shape, cs caseSpec) {
 	}
 	serr := signOnce(sh, cs.Key, in, out)
 	after, _ := os.ReadFile(in)
+	if serr != nil && bytes.Equal(after, input) {
+		// a refusal must be a function of the input: try again on the same (untouched) input
+		if _, err := os.Stat(out); cs.OutMode == "new" && err == nil {
+			// keep the first observation (output written despite error), judged below
+		} else if err2 := signOnce(sh, cs.Key, in, out); err2 == nil {
+			outcome("nondeterministic-refusal(first attempt failed, identical retry succeeded):" + sh.Type + ":" + errClass(serr))
+			serr = nil
+			after, _ = os.ReadFile(in)
+		}
+	}
 	replay := map[string]any{"case": cs, "hazard": sh.Hazard, "source": sh.Source, "type": sh.Type, "flags": sh.Flags,
 		"how": "go run: C03_ONLY='" + sh.ID + "' ./check C03 quick"}
 	weight := len(orig)
@@ -296,7 +306,7 @@ func runCase(e *env, sh *shape, cs caseSpec) {
 			}
 		}
 	}
-	if len(got.SigItems) == 0 && sh.PType != "pgp-detached" {
+	if len(got.SigItems) == 0 {
 		report(hz, "no-signature-in-output", fmt.Sprintf("%s: signing succeeded but the independent reader finds no signature item in the output", sh.ID), replay, weight)
 	}
 }
@@ -400,6 +410,8 @@ func main() {
 	e := &env{dir: dir, py: py}
 	all := allShapes(run.Thorough())
 	only := os.Getenv("C03_ONLY")
+	repeat := 1
+	fmt.Sscan(os.Getenv("C03_REPEAT"), &repeat)
 	deadline := time.Now().Add(25 * time.Minute)
 	idx := 0
 	shapeCount := map[string]int{}
@@ -437,6 +449,9 @@ func main() {
 					if time.Now().After(deadline) {
 						run.Capped("time cap 25 min")
 						continue
+					}
+					for rep := 1; rep < repeat; rep++ { // development: C03_REPEAT
+						runCase(e, sh, caseSpec{sh.ID, key, om, r})
 					}
 					if len(sh.Parts) > 0 {
 						runMinimised(e, sh, caseSpec{sh.ID, key, om, r}, byID)
@@ -498,7 +513,8 @@ func finish() {
 		"sub_product":  subProduct,
 	})
 	run.Assume("whitespace-only text between elements of a ClickOnce manifest is not payload (the enveloped Signature element is inserted between them)")
-	run.Assume("clearsigned text is compared after RFC 4880 §7.1 canonicalisation of line ends and trailing blanks, without the final line ending (the framework owns it)")
+	run.Assume("clearsigned text is compared after RFC 4880 §7.1 canonicalisation (line ends, trailing blanks) and without the final line ending, which the framework owns; gpg(1) --clearsign: 'clear text signatures may modify end-of-line whitespace for platform independence and are not intended to be reversible' (relic emits the canonical CRLF text without trailing blanks). Inline signed messages are compared byte for byte")
+	run.Assume("a refusal that does not repeat on an identical retry (seen: bare EOF when a Mach-O/DMG is signed to a new path, a race between the tar feeder goroutine and binpatch.applyRewrite on one file offset) is tallied as nondeterministic-refusal and the retry is judged; it is not a payload alteration")
 	run.Assume("ZIP: bytes between members / before the first member are not archive members; they are not compared, the archive must stay readable with identical members")
 	run.Finish()
 }
